@@ -154,6 +154,7 @@ class Ev:
             return s.kind_of(v) in names
         if isinstance(e, ast.Call) and ast.unparse(e.func) == 'hasattr' and isinstance(e.args[1], ast.Constant):
             v = s.expr(e.args[0])
+            if isinstance(v, Tup): return False                      # a plain tuple / list has none of the attributes asked for
             if e.args[1].value == 'toarray': return isinstance(v, RM) and getattr(v, 'sparse', False)
             if e.args[1].value == 'real' and isinstance(v, (QArr, SparseQ, RM)): return True
             if e.args[1].value in ('i', 'j', 'k') and isinstance(v, (QArr, SparseQ, RM)): return isinstance(v, SparseQ)
@@ -163,8 +164,11 @@ class Ev:
             v = s.expr(e.args[0]); return isinstance(v, Scal)
         if isinstance(e, ast.UnaryOp) and isinstance(e.op, ast.Not): return not s.cond(e.operand)
         if isinstance(e, ast.BoolOp):
-            vals = [s.cond(x) for x in e.values]
-            return all(vals) if isinstance(e.op, ast.And) else any(vals)
+            for x in e.values:                                        # short-circuit, as Python does
+                v = s.cond(x)
+                if isinstance(e.op, ast.And) and not v: return False
+                if isinstance(e.op, ast.Or) and v: return True
+            return isinstance(e.op, ast.And)
         if isinstance(e, ast.Compare) and len(e.ops) == 1:
             l = s.expr(e.left); r = s.expr(e.comparators[0])
             if isinstance(e.ops[0], (ast.Is, ast.Eq)) and isinstance(l, Const) and isinstance(r, Const): return l.v == r.v
